@@ -189,7 +189,10 @@ func mountIndexer(defaultPath string) indexer {
 		case map[string]any:
 			t, ok := v["target"]
 			if ok {
-				return t.(string), nil
+				if target, isString := t.(string); isString {
+					return target, nil
+				}
+				return "", fmt.Errorf("%s.target must be a string", path)
 			}
 			return fmt.Sprintf("%s/%s", defaultPath, v["source"]), nil
 		default:
@@ -235,7 +238,10 @@ func envFileIndexer(y any, p tree.Path) (string, error) {
 		return value, nil
 	case map[string]any:
 		if pathValue, ok := value["path"]; ok {
-			return pathValue.(string), nil
+			if path, isString := pathValue.(string); isString {
+				return path, nil
+			}
+			return "", fmt.Errorf("%s.path must be a string", p)
 		}
 		return "", fmt.Errorf("environment path attribute %s is missing", p)
 	}
